@@ -289,7 +289,6 @@ theorem endpoint_on_vline (s : Scene) (i : Nat) (c : Conn) (hc : s.fixDirs[i]? =
       rw [hy, hp, hrp]
       grind
     rw [if_pos hcr]
-    apply List.mem_append_left
     refine List.mem_map.mpr ⟨⟨c.x, .conn i⟩, List.mem_filter.mpr ⟨hvx, ?_⟩, by simp [hy]⟩
     simp [hp, hrp]
   constructor
@@ -380,7 +379,6 @@ theorem crossing_shared (s : Scene) (ph pv : Seg × List LV) (hh : ph ∈ s.line
     apply mem_vVerts_of_from _ _ _ _ ph hh
     unfold vFrom
     rw [if_pos hc]
-    apply List.mem_append_left
     exact List.mem_map.mpr ⟨q, List.mem_filter.mpr ⟨hq, by simp [hqt]⟩, rfl⟩
 
 /-- every rectangle side (without other boxes overlapping it) lies, with both corner vertices, on a
@@ -1018,5 +1016,22 @@ def demoScene3 : Scene :=
 -- A = (6,9) (number 1), B = (0,3) (number 0), corner (0,9): the route B — (0,9) — A is in the graph
 #guard demoScene3.graph.contains (⟨0, 3, .conn 0⟩, ⟨0, 5, .node⟩) && demoScene3.graph.contains (⟨0, 7, .node⟩, ⟨0, 9, .node⟩) &&
        demoScene3.graph.contains (⟨0, 9, .node⟩, ⟨2, 9, .node⟩) && demoScene3.graph.contains (⟨4, 9, .node⟩, ⟨6, 9, .conn 1⟩)
+
+/-- witness for the crossing rule "horizontal line finishes on a vertical line" (case ovis-overlap 3499 of
+    seed 1): boxes [3,7]×[3,5], [0,4]×[5,7], [3,6]×[4,8]; an end point at (3,5) that may not be left to the
+    Left.  The row y = 5 ends at x = 3 with only the end point's vertex there; the column x = 3 has its own end
+    vertex (a box corner) at (3,5).  Repaired order: that vertex is a break point of the row too, so the row's
+    dummy vertices (0,5) and (3,5) are joined.  As found: the row had no dummy vertex at (3,5) and the edge
+    was missing (and on the level of vertex objects the column's vertex was cut off from the row). -/
+def demoSceneFinish : Scene :=
+  ⟨[⟨3, 3, 7, 5⟩, ⟨0, 5, 4, 7⟩, ⟨3, 4, 6, 8⟩],
+   [⟨3, 5, ⟨true, true, false, true⟩⟩, ⟨-1/2, 3, ⟨true, true, true, true⟩⟩]⟩
+
+#guard demoSceneFinish.graph.contains (⟨0, 5, .node⟩, ⟨3, 5, .node⟩)
+#guard !demoSceneFinish.graphAsFound.contains (⟨0, 5, .node⟩, ⟨3, 5, .node⟩)
+-- the repair only adds edges here, and what it adds enters no box
+#guard demoSceneFinish.graphAsFound.all demoSceneFinish.graph.contains
+#guard demoSceneFinish.graph.all fun e => demoSceneFinish.rects.all fun R =>
+  hasConnIn demoSceneFinish.conns R || edgeAvoids R e.1.x e.1.y e.2.x e.2.y
 
 end AdaptaVerif.Props.C05OrthVis
